@@ -41,6 +41,7 @@ ObsInit == [ frames    |-> <<>>,   \* framesSent: Seq of [len, s0, n]
              unrec     |-> {},     \* gaps that became visible when already out of the history
              late      |-> 0,      \* how far behind the newest a stale packet (duplicate, or from
                                    \* before the receiver's first packet) has arrived at most
+             selfReq   |-> {},     \* sequence numbers the receiver asked for AFTER a copy had arrived
              discards  |-> 0,      \* discard signals seen
              verdict   |-> "ok" ]
 
@@ -90,8 +91,11 @@ ObsSend(o, len, s0, n) ==
 \* be retransmitted any more.
 ObsArrive(o, s, hi) ==
   LET newgap == IF o.maxArr >= 0 /\ s > o.maxArr THEN (o.maxArr + 1)..(s - 1) ELSE {}
-      stale  == s \in o.arrived \/ (o.firstArr # -1 /\ s < o.firstArr) IN
-  [o EXCEPT !.late     = IF stale /\ o.maxArr - s > @ THEN o.maxArr - s ELSE @,
+      stale  == s \in o.arrived \/ (o.firstArr # -1 /\ s < o.firstArr)
+      \* a late duplicate the receiver itself asked for (it NACKed a packet it already had) is its
+      \* own doing, not the network's: it does not excuse a missing frame
+      own    == s \in o.selfReq IN
+  [o EXCEPT !.late     = IF stale /\ ~own /\ o.maxArr - s > @ THEN o.maxArr - s ELSE @,
             !.firstArr = IF @ = -1 THEN s ELSE @,
             !.maxArr   = IF s > @ THEN s ELSE @,
             !.arrived  = @ \cup {s},
@@ -100,6 +104,10 @@ ObsArrive(o, s, hi) ==
 ObsNack(o, n) ==
   LET o1 == [o EXCEPT !.nackMax = IF n > @ THEN n ELSE @] IN
   IF n > HistorySize THEN Fail(o1, "C11.nack_too_long") ELSE o1
+
+\* a NACK with its list of sequence numbers (traces of the real receiver)
+ObsNackList(o, n, lost) ==
+  LET o1 == ObsNack(o, n) IN [o1 EXCEPT !.selfReq = @ \cup (lost \cap o.arrived)]
 
 ObsDiscard(o) ==
   [o EXCEPT !.tailOk = TRUE, !.discards = IF @ < 1000 THEN @ + 1 ELSE @]
